@@ -12,6 +12,9 @@ Direct oracle (O), on the real classes only:
   * at every length limit (count-1, count, count+1; bytes, bytearray, str, lists/tuples of codes, ints by digit count, bools) each class's
     `supports_value` agrees with its `set()`, and a limited Dynamic (text type before / after Binary, the limited data items) stores the
     value in the first declared type that takes it;
+  * after every step of a random sequence of public mutations (set, decode into the object, item assignment, `.value =`, Array.append,
+    element / field assignment, also on nested members and through a Dynamic) `encode()` is the E5 encoding of what the object holds;
+  * NaN is treated alike on every path (scalar, list, tuple, constructor, Dynamic, Array, decode) and an accepted NaN decodes again;
   * `set()` replaces: a second `set()` (also field-wise through item / attribute assignment on a List, also with an empty array) leaves
     exactly the second value; a Dynamic / ANYVALUE / data item given two plain values of different kinds ends like a fresh object;
   * `encode_item_header` is format byte + minimal big-endian length bytes for every length 0..0xFFFFFF and refuses the rest.
@@ -384,6 +387,159 @@ def oracle_type_choice(res, tags, count, p):
 TYPE_LISTS = [("A", "B"), ("B", "A"), ("J", "B"), ("A", "U1", "B"), ("U1", "A"), ("A", "U4"), ("BOOLEAN", "U1", "A"), ("I2", "F4", "A", "B"), ("B",), ("A",), ("J", "A")]
 
 
+def _py_elem(t, e):
+    return bool(e) if t == "BOOLEAN" else K.b2f(e) if t in ("F4", "F8") else e
+
+
+def _nodes(obj, s, out, path=""):
+    """(object, structure, public path) of every node of a live variable tree"""
+    out.append((obj, s, path))
+    k = s[0]
+    if k == "arr" and isinstance(obj, V.Array):
+        for i, c in enumerate(obj.data):
+            _nodes(c, s[1], out, f"{path}[{i}]")
+    elif k == "rec" and isinstance(obj, V.List):
+        for i, (key, f) in enumerate(zip(list(obj.data.keys()), s[1])):
+            _nodes(obj.data[key], f, out, f"{path}[{i}]")
+
+
+def oracle_opseq(res, s, v, seed, steps=8):
+    """a random sequence of PUBLIC mutations on one object — set(), decode() into it, item assignment on numbers / Booleans / through a
+    Dynamic, `.value =`, Array.append, element and field assignment on Array / List (item and attribute form), also on nested members —
+    with encode() after every step: the bytes are always the E5 encoding of what the object holds at that moment"""
+    rng = hlib.Rng(seed)
+    case = {"kind": "opseq", "struct": js(s), "val": js(v), "seed": seed, "ops": []}
+    try:
+        obj = K.ctor_var(s, K.plain_for(s, v))
+    except Exception:  # noqa: BLE001
+        return
+
+    def consistent(after):
+        try:
+            held = K.val_of_var(obj)
+            if held == "NONE" or "NONE" in K.show_any(held) or K.has_nan(held):
+                return True
+            want = K.own_encode(held)
+        except Exception:  # noqa: BLE001
+            return True
+        try:
+            enc = obj.encode()
+        except Exception as exc:  # noqa: BLE001
+            res.violate("opseq-encode-stale", f"after {after}: encode() raised {type(exc).__name__}: {exc}", case, K.show_val(held)[:200])
+            return False
+        if enc != want:
+            res.violate("opseq-encode-stale", f"after {after}: encode() is not the encoding of the value the object holds", case,
+                        f"{K.show_val(held)[:120]} = {want.hex()[:80]}", enc.hex()[:120])
+            return False
+        return True
+    if not consistent("construction"):
+        return
+    for _ in range(steps):
+        nodes = []
+        _nodes(obj, s, nodes)
+        node, ns, path = rng.choice(nodes)
+        k = ns[0]
+        op, fn = None, None
+        r = rng.below(10)
+        try:
+            cur = K.val_of_var(node)
+        except Exception:  # noqa: BLE001
+            cur = None
+        if cur in (None, "NONE") or (isinstance(cur, tuple) and "NONE" in K.show_any(cur)):
+            w = None
+        else:
+            w = reshape(rng, ns if k not in ("dyn", "any") else ("leaf", cur[0], ns[2] if k == "dyn" else -1), cur) if not K.has_list_under_dyn(ns, cur) else None
+        if k in ("leaf", "dyn", "any") and cur not in (None, "NONE") and cur[0] in K.NUMERIC + ["BOOLEAN"] and cur[1] and r < 4:
+            i = rng.below(len(cur[1]))
+            x = _py_elem(cur[0], K.gen_elems(rng, cur[0], 1, "finite")[0])
+            op, fn = f"obj{path}[{i}] = {x!r}", (lambda node=node, i=i, x=x: node.__setitem__(i, x))
+        elif k == "leaf" and cur is not None and r < 6:
+            new = K.gen_elems(rng, cur[0], len(cur[1]), "finite")
+            payload = K.leaf_payload(cur[0], new)
+            op, fn = f"obj{path}.value = {payload!r}"[:120], (lambda node=node, payload=payload: setattr(node, "value", payload))
+        elif k == "arr" and cur is not None and r < 3 and cur[1] and not K.has_list_under_dyn(ns[1], cur[1][0]):
+            el = reshape(rng, ns[1], cur[1][0])
+            op, fn = f"obj{path}.append(...)", (lambda node=node, ns=ns, el=el: node.append(K.plain_for(ns[1], el)))
+        elif k in ("arr", "rec") and cur is not None and cur[1] and r < 6:
+            i = rng.below(len(cur[1]))
+            fs = ns[1] if k == "arr" else ns[1][i]
+            if fs[0] not in ("dyn", "any") and not K.has_list_under_dyn(fs, cur[1][i]):
+                el = reshape(rng, fs, cur[1][i])
+                if k == "rec" and rng.chance(1, 2):
+                    key = list(node.data.keys())[i]
+                    op, fn = f"obj{path}.{key} = ...", (lambda node=node, key=key, fs=fs, el=el: setattr(node, key, K.plain_for(fs, el)))
+                else:
+                    op, fn = f"obj{path}[{i}] = ...", (lambda node=node, i=i, fs=fs, el=el: node.__setitem__(i, K.plain_for(fs, el)))
+        if op is None and w is not None:
+            if rng.chance(1, 2):
+                op, fn = f"obj{path}.set(...)", (lambda node=node, ns=ns, w=w: node.set(K.plain_for(ns, w)))
+            else:
+                op, fn = f"obj{path}.decode(...)", (lambda node=node, w=w: node.decode(K.own_encode(w), 0))
+        if op is None:
+            continue
+        case["ops"].append(op)
+        try:
+            fn()
+        except Exception:  # noqa: BLE001
+            case["ops"][-1] += "  (raised)"
+        if not consistent(" ; ".join(case["ops"])[-300:]):
+            return
+
+
+NAN64 = [0x7FF8000000000000, 0xFFF8000000000000, 0x7FF0000000000001, 0xFFF4000000000000, 0x7FFFFFFFFFFFFFFF]
+NAN32 = [0x7FC00000, 0xFFC00000, 0x7F800001, 0xFFA00000, 0x7FFFFFFF]
+
+
+def oracle_nan(res, t, bits):
+    """NaN: whatever the type decides, it decides the same on every path (scalar, list, tuple, constructor, typed object in a Dynamic,
+    member of an Array, decode) — and a NaN that is accepted encodes to bytes the type decodes again"""
+    case = {"kind": "nan", "type": t, "bits": f"{bits:016x}"}
+    cls = K.VARCLS[t]
+    x = K.b2f(bits)
+    wire = struct.pack(">f", x) if t == "F4" else bits.to_bytes(8, "big")
+    enc_item = K.own_header(K.CODE[t], len(wire)) + wire
+
+    def arr_set():
+        a = V.Array(K.data_format(("leaf", t, -1)))
+        a.set([[x]])
+
+    def dyn_plain():
+        d = V.Dynamic([cls])
+        d.set(x)
+    paths = {
+        "set(scalar)": lambda: cls().set(x), "set([x])": lambda: cls().set([x]), "set((x,))": lambda: cls().set((x,)),
+        "constructor(x)": lambda: cls(x), "constructor([x])": lambda: cls([x]), "Dynamic.set(T(x))": lambda: V.Dynamic([cls]).set(cls(x)),
+        "Dynamic.set(x)": dyn_plain, "Array.set([[x]])": arr_set,
+        "decode": lambda: cls().decode(enc_item), "ANYVALUE.decode": lambda: K.fresh_var(("any",)).decode(enc_item),
+        "Array.decode": lambda: V.Array(K.data_format(("leaf", t, -1))).decode(K.own_header(0, 1) + enc_item),
+    }
+    outcome = {}
+    for name, fn in paths.items():
+        try:
+            fn()
+            outcome[name] = "accepted"
+        except Exception as exc:  # noqa: BLE001
+            outcome[name] = "refused:" + hlib.errkind(exc)
+    kinds = {o.split(":")[0] for o in outcome.values()}
+    if len(kinds) > 1:
+        res.violate("nan-inconsistent", f"{t}: NaN {bits:016x} is accepted on some paths and refused on others", dict(case, paths=outcome),
+                    None, ", ".join(f"{k}={o}" for k, o in outcome.items())[:400])
+        return
+    if kinds == {"accepted"}:
+        try:
+            obj = cls(x)
+            enc = obj.encode()
+            fresh = cls()
+            pos = fresh.decode(enc)
+            back = K.val_of_var(fresh)
+            ok = pos == len(enc) and len(back[1]) == 1 and K.is_nan(back[1][0]) and enc == enc_item[:2] + enc[2:]
+        except Exception as exc:  # noqa: BLE001
+            res.violate("nan-not-roundtrip", f"{t}: an accepted NaN does not encode / decode: {type(exc).__name__}: {exc}", case)
+            return
+        if not ok:
+            res.violate("nan-not-roundtrip", f"{t}: an accepted NaN does not come back as a NaN at the right position", case, len(enc), pos)
+
+
 def oracle_accepted(res, t, count, p):
     """the property on ANY value the implementation accepts: T(count).set(p) succeeded -> the held value has an E5 encoding,
     encode() is that encoding, and it decodes back to the held value at the right position"""
@@ -463,6 +619,10 @@ def replay_case(res, case):
         oracle_supports(res, case["type"], case["count"], unjs_py(case["py"]))
     elif k == "typechoice":
         oracle_type_choice(res, case["types"], case["count"], unjs_py(case["py"]))
+    elif k == "opseq":
+        oracle_opseq(res, unjs(case["struct"]), unjs(case["val"]), case["seed"])
+    elif k == "nan":
+        oracle_nan(res, case["type"], int(case["bits"], 16))
     elif k == "settwice":
         oracle_set_twice(res, unjs(case["struct"]), unjs(case["v1"]), unjs(case["v2"]))
     elif k == "dynseq":
@@ -749,6 +909,10 @@ def main():
                 oracle_reuse(res, s, None, [v, empty_of(v), v])          # decode several times in a row into one object
             res.evaluations += 2
             if not K.has_list_under_dyn(s, v):
+                if i % 2 == 0 or K.size_of(v) < 6:
+                    sd = (rng.next() & 0xFFFFFFFF)
+                    oracle_opseq(res, s, v, sd)                          # random public mutations interleaved with encode()
+                    res.evaluations += 8
                 oracle_ctor_path(res, s, v)                              # the value as constructor argument
                 oracle_ctor_path(res, s, empty_of(v))
                 w = reshape(rng, s, v)
@@ -916,6 +1080,19 @@ def main():
         oracle_set(res, "F4", [b])
     for b in [K.DBL_MAX64, K.SIGN | K.DBL_MAX64, 1, 0x0010000000000000]:
         oracle_set(res, "F8", [b])
+
+    # NaN (quiet / signalling, both signs) on every path of F4 and F8
+    for t in ("F4", "F8"):
+        for bits in NAN64 + [K.f32_to_b64(f) for f in NAN32]:
+            oracle_nan(res, t, bits)
+            res.count(("nan", t, bits))
+    # operation sequences on plain leaf objects of every numeric / Boolean type (item assignment after encode)
+    for t in K.NUMERIC + ["BOOLEAN", "B", "A"]:
+        for n in (1, 2, 5):
+            for _ in range(4 if big else 2):
+                oracle_opseq(res, ("leaf", t, -1), (t, K.gen_elems(rng, t, n, "finite")), rng.next() & 0xFFFFFFFF)
+        oracle_opseq(res, ("dyn", [t], -1), (t, K.gen_elems(rng, t, 3, "finite")), rng.next() & 0xFFFFFFFF)
+        oracle_opseq(res, ("arr", ("leaf", t, -1), -1), ("L", [(t, K.gen_elems(rng, t, 2, "finite")), (t, K.gen_elems(rng, t, 1, "finite"))]), rng.next() & 0xFFFFFFFF)
 
     # length limits: every supports_value helper against set(), and the type a limited Dynamic picks, at count-1 / count / count+1
     import secsgem.secs.data_items as D
